@@ -436,7 +436,7 @@ PROPS["C01"] = dict(
     quick=dict(shards=8, cases=400),
     thorough=dict(shards=16, cases=8000),
     floors={"VEGAS": 0.25, "MULTI": 0.25, "PLAIN": 0.1, "non-uniform-grid": 0.15, "disabled-channel": 0.05, "common-jacobian-factor": 0.1,
-            "uncovered-cells": 0.02},
+            "uncovered-cells": 0.02, "vegas-high-dimension": 0.02},
     level_text="noise-free quadrature oracle: the integrators are driven by a scripted engine that plays a complete "
                "midpoint lattice in the space of the random numbers, so the estimate must equal the closed-form integral "
                "of the multilinear integrand (over the cells covered by an enabled channel) within 64 eps (d + channels) "
